@@ -1,7 +1,7 @@
 #!/bin/sh
 # tools/try_patch.sh <patch.diff> [PROP ...]   — apply a seeded change to /repo, run the quick
 # checks (all twenty by default), always restore /repo afterwards.  Prints one line per check.
-PATCH="$1"; shift
+PATCH="$(readlink -f "$1")"; shift
 cd "$(dirname "$0")/.." || exit 2
 [ -n "$(git -C /repo status --porcelain --untracked-files=no)" ] && { echo "/repo is not clean"; exit 2; }
 trap 'git -C /repo checkout -- . ; echo "(/repo restored)"' EXIT INT TERM
